@@ -63,6 +63,14 @@ DEVIATIONS = {
     "OpenRecomputesMeta": ("cat", False),
     "IdsFileDropsLast": ("cat", False),
 }
+# the kind of finding the real code would show if it had the deviation
+DEV_SIGNATURE = {
+    "SparseBySum": "counts_differ", "SkipAllZeroMember": "members_differ", "NoTruncate": "CorrFunc",
+    "NamesZippedWithPresent": "members_differ", "CustomDictHasGenKeys": "method=custom", "EndpointsInexact": "edges_drift",
+    "ModifyDropsCosmology": "edges_differ", "ClosedDroppedOnRegenerate": "closed_differs", "BinningIgnoresCosmology": "edges_differ",
+    "LoadtxtSqueeze": "num_bins=1", "ClosedTagLost": "closed_differs", "ReadsErrorColumn": "value_differs",
+    "SumWeightsAsInt": "sum_weights_differs", "OpenRecomputesMeta": "center", "IdsFileDropsLast": "patch_ids_differ",
+}
 # deviation that changes the model's outcome class but not the property (the property
 # says nothing about Configuration.modify failing): must still pass TLC
 BENIGN = {"ModifyCustomRaises": "cfg"}
@@ -818,6 +826,8 @@ def plan(quick: bool):
 
 
 def report(ctx, case, findings, drift):
+    if findings:  # a file layout that differs because the property fails is not drift
+        drift = [d for d in drift if "differ" not in d[0]]
     for f in findings:
         ctx.violation(f.key, dict(case=case.to_json(), **f.detail))
     for key, detail in drift:
@@ -827,7 +837,10 @@ def report(ctx, case, findings, drift):
 def replay_cases(ctx, yaw, root, kind, cases, rng, stats, **kw):
     import shutil
 
+    import time
+
     runner = RUNNERS[kind]
+    t0 = time.time()
     for n, case in enumerate(cases):
         sub = root / f"{kind}{n}"
         sub.mkdir()
@@ -842,6 +855,7 @@ def replay_cases(ctx, yaw, root, kind, cases, rng, stats, **kw):
         st["behaviours"] += 1
         st["with_findings"] += bool(findings)
         st["model_outcomes"][case.outcome] = st["model_outcomes"].get(case.outcome, 0) + 1
+    stats[kind]["replay_wall_s"] = round(stats[kind].get("replay_wall_s", 0) + time.time() - t0, 2)
 
 
 def binding_demo(ctx, yaw, root, kind, cases, rng):
@@ -999,7 +1013,8 @@ def run(ctx) -> None:
                 findings, drift = RUNNERS[kind](yaw, sub, case, rng)
                 ctx.validated(1)
                 dev_out[dev] = dict(kind=kind, trace_steps=steps, objs=jsonable(case.objs), model_outcome_with_deviation=state["outcome"],
-                                    real_code_shows_it=bool(findings), keys=sorted({f.key for f in findings}))
+                                    real_code_shows_it=any(DEV_SIGNATURE[dev] in f.key for f in findings),
+                                    keys=sorted({f.key for f in findings}))
             ctx.extra["deviation_counterexamples_replayed"] = dev_out
     finally:
         pool.shutdown(wait=True, cancel_futures=True)
